@@ -16,6 +16,7 @@ import stat
 
 from vsim import actors as A
 from vsim import gwsim
+from vsim import procs as P
 
 from . import chanlib as L
 from .chanlib import v
@@ -104,7 +105,9 @@ def gen(rng, tier):
                                                  "_local_receive"], maxn=60, p=0.3),
             "faults": [], "tree": tree, "prior": prior, "steps": steps, "delete": rng.random() < 0.5,
             "cwd": rng.choice(["outside", "inside", "inside-sub"]), "scratch": "vsim-c17-%08x" % rng.randrange(1 << 32),
-            "slashes": rng.choice([0, 0, 1, 2, 3])}
+            "slashes": rng.choice([0, 0, 1, 2, 3]),
+            # targets named by a relative path: resolved where the receiver runs (its working directory is not ours)
+            "reldest": rng.choice(["", "", "", "plain", "dot", "updown"])}
 
 
 def shrink_cases(case):
@@ -133,6 +136,10 @@ def shrink_cases(case):
     if case["cwd"] != "outside":
         c = dict(case)
         c["cwd"] = "outside"
+        yield c
+    if case.get("reldest"):
+        c = dict(case)
+        c["reldest"] = ""
         yield c
 
 
@@ -380,15 +387,26 @@ def c17_script(ctx, aid, oi, table, op):
                     os.utime(os.path.join(d, "unrelated.txt"), (1300000000, 1300000000))
                 dests.append(d)
                 extras.append(snapshot(d) if os.path.isdir(d) else {})
+            if case.get("reldest"):
+                P.cwd_model_on(ctx.w)
             if case["cwd"] == "inside":
                 os.chdir(srcdir)
             elif case["cwd"] == "inside-sub":
                 subs = [e["path"] for e in case["tree"] if e["kind"] == "dir"]
                 os.chdir(os.path.join(srcdir, subs[0]) if subs else srcdir)
+            elif case.get("reldest"):
+                os.chdir(outside)
             else:
                 os.chdir("/")
         finally:
             cur.notrace -= 1
+        names = list(dests)
+        if case.get("reldest"):
+            # every receiver works in the scratch directory, the sending side somewhere else
+            for gw in ctx.gws:
+                gw.remote_exec("import os\nos.chdir(%r)" % base).waitclose()
+            form = {"plain": "dst%d", "dot": "./dst%d", "updown": "outside/../dst%d"}[case["reldest"]]
+            names = [form % i for i in range(len(dests))]
 
         def one_sync(tag):
             reported = []
@@ -400,7 +418,7 @@ def c17_script(ctx, aid, oi, table, op):
             # the same directories, spelt with or without a trailing slash
             sl = case.get("slashes", 0)
             r = R(srcdir + ("/" if sl & 1 else ""), verbose=False)
-            for gw, d in zip(ctx.gws, dests):
+            for gw, d in zip(ctx.gws, names):
                 r.add_target(gw, d + ("/" if sl & 2 else ""), delete=case["delete"])
             r.send()
             return reported
@@ -437,6 +455,8 @@ def c17_script(ctx, aid, oi, table, op):
                 break
     finally:
         os.chdir(oldcwd)
+        if case.get("reldest"):
+            P.cwd_model_off(ctx.w, oldcwd)
         os.umask(oldmask)
         shutil.rmtree(base, ignore_errors=True)
     ctx.rec(aid, oi, "sub", ("rsync", nsent, V[:6]))
